@@ -63,6 +63,9 @@ TM == "defer_thread_mutex"
 FlId(t) == "F:" \o t
 Flushers == {FlId(t) : t \in Procs}
 FlOf == [f \in Flushers |-> CHOOSE t \in Procs : FlId(t) = f]
+FaId(h) == "W:" \o h
+Faulters == {FaId(h) : h \in Recl}
+FaOf == [f \in Faulters |-> CHOOSE h \in Recl : FaId(h) = f]
 NoOp == [op |-> "none", f |-> "-", p |-> "-"]
 Without(s, x) == SelectSeq(s, LAMBDA y : y # x)
 
@@ -74,6 +77,7 @@ variables
   acc = [k |-> 0],
   fsleep = {},                              \* threads blocked in FUTEX_WAIT on defer_thread_futex
   spur = Spurious,
+  fkind = [h \in Recl |-> "WAKE"],          \* how the sleeper's FUTEX_WAIT will return: WAKE, or the fault a fault agent chose
   \* plain data (under rcu_defer_mutex / defer_thread_mutex, or private to the owner)
   registry = <<>>,                          \* registry_defer, newest first (cds_list_add)
   lfi = [t \in Threads |-> NULL],           \* last_fct_in
@@ -284,6 +288,16 @@ u_ul1:  Unlock(TM);
         return;
 }
 
+\* spurious / EINTR return of FUTEX_WAIT in two steps, as in the kernel (and the runtime): the fault takes the sleeper off the futex
+\* queue at once -- a FUTEX_WAKE issued before the sleeper runs again finds nobody -- and the sleeper reports it when it next runs
+process (faulter \in Faulters) {
+fa: while (TRUE) {
+      await FaOf[self] \in fsleep /\ spur > 0;
+      spur := spur - 1; fsleep := fsleep \ {FaOf[self]};
+      with (k \in {"SPURIOUS", "EINTR"}) { fkind[FaOf[self]] := k };
+    }
+}
+
 fair process (flusher \in Flushers) {
 fl: while (TRUE) {
       await sb[FlOf[self]] # <<>>;
@@ -319,9 +333,8 @@ w_ldf:    Ld(iv[self], "futex");                                 \* (cmm_smp_rmb
 w_fwait:  await Drained(self);                                   \* futex_noasync(&defer_thread_futex, FUTEX_WAIT, -1, ...)
           if (mem["futex"] = -1) { fsleep := fsleep \cup {self}; acc := Ev(self, "fwait", "futex", -1, "-", "SLEEP") }
           else { acc := Ev(self, "fwait", "futex", -1, "-", "EAGAIN"); goto h_bar };   \* EAGAIN: value already changed
-w_fwoke:  either { await self \notin fsleep; acc := Ev(self, "fwoke", "futex", "-", "-", "WAKE") }
-          or { await self \in fsleep /\ spur > 0; spur := spur - 1; fsleep := fsleep \ {self};
-               with (k \in {"SPURIOUS", "EINTR"}) { acc := Ev(self, "fwoke", "futex", "-", "-", k) } };
+w_fwoke:  await self \notin fsleep;                               \* woken by FUTEX_WAKE, or taken off the futex queue by a fault agent earlier
+          acc := Ev(self, "fwoke", "futex", "-", "-", fkind[self]); fkind[self] := "WAKE";
           goto w_ldf;                                            \* 0 / EINTR: check the value again
 h_bar:    call barrier();                                        \* (poll(NULL, 0, 100)) rcu_defer_barrier()
         };
@@ -363,10 +376,10 @@ t_exit: await Drained(self);
 }
 } *)
 \* BEGIN TRANSLATION
-VARIABLES pc, mem, sb, lock, acc, fsleep, spur, registry, lfi, lfo, lasthead, 
-          qalloc, tid, nrecl, started, cs, ncs, pendq, err, pci, opx, iv, pv, 
-          dhead, dtail, enc, bhead, own, qh, qi, regs, kk, num, flag, gps, 
-          stack
+VARIABLES pc, mem, sb, lock, acc, fsleep, spur, fkind, registry, lfi, lfo, 
+          lasthead, qalloc, tid, nrecl, started, cs, ncs, pendq, err, pci, 
+          opx, iv, pv, dhead, dtail, enc, bhead, own, qh, qi, regs, kk, num, 
+          flag, gps, stack
 
 (* define statement *)
 LastIdx(t, loc) == LET S == {i \in DOMAIN sb[t] : sb[t][i][1] = loc} IN
@@ -377,12 +390,12 @@ Ev(t, op, var, a, b, r) == IF Tracing THEN [k |-> acc.k + 1, t |-> t, op |-> op,
 OpenNow == {cs[t] : t \in Threads} \ {0}
 
 
-vars == << pc, mem, sb, lock, acc, fsleep, spur, registry, lfi, lfo, lasthead, 
-           qalloc, tid, nrecl, started, cs, ncs, pendq, err, pci, opx, iv, pv, 
-           dhead, dtail, enc, bhead, own, qh, qi, regs, kk, num, flag, gps, 
-           stack >>
+vars == << pc, mem, sb, lock, acc, fsleep, spur, fkind, registry, lfi, lfo, 
+           lasthead, qalloc, tid, nrecl, started, cs, ncs, pendq, err, pci, 
+           opx, iv, pv, dhead, dtail, enc, bhead, own, qh, qi, regs, kk, num, 
+           flag, gps, stack >>
 
-ProcSet == (Flushers) \cup (Recl) \cup (Threads)
+ProcSet == (Faulters) \cup (Flushers) \cup (Recl) \cup (Threads)
 
 Init == (* Global variables *)
         /\ mem = [l \in Locs |-> IF l \in IntLocs THEN 0 ELSE "JUNK"]
@@ -391,6 +404,7 @@ Init == (* Global variables *)
         /\ acc = [k |-> 0]
         /\ fsleep = {}
         /\ spur = Spurious
+        /\ fkind = [h \in Recl |-> "WAKE"]
         /\ registry = <<>>
         /\ lfi = [t \in Threads |-> NULL]
         /\ lfo = [t \in Threads |-> NULL]
@@ -420,7 +434,8 @@ Init == (* Global variables *)
         /\ flag = [t \in Procs |-> FALSE]
         /\ gps = [t \in Procs |-> {}]
         /\ stack = [self \in ProcSet |-> << >>]
-        /\ pc = [self \in ProcSet |-> CASE self \in Flushers -> "fl"
+        /\ pc = [self \in ProcSet |-> CASE self \in Faulters -> "fa"
+                                        [] self \in Flushers -> "fl"
                                         [] self \in Recl -> "h_idle"
                                         [] self \in Threads -> "t_top"]
 
@@ -429,20 +444,22 @@ gp_b(self) == /\ pc[self] = "gp_b"
               /\ gps' = [gps EXCEPT ![self] = OpenNow]
               /\ acc' = Ev(self, "gp_begin", "-", "-", "-", "-")
               /\ pc' = [pc EXCEPT ![self] = "gp_e"]
-              /\ UNCHANGED << mem, sb, lock, fsleep, spur, registry, lfi, lfo, 
-                              lasthead, qalloc, tid, nrecl, started, cs, ncs, 
-                              pendq, err, pci, opx, iv, pv, dhead, dtail, enc, 
-                              bhead, own, qh, qi, regs, kk, num, flag, stack >>
+              /\ UNCHANGED << mem, sb, lock, fsleep, spur, fkind, registry, 
+                              lfi, lfo, lasthead, qalloc, tid, nrecl, started, 
+                              cs, ncs, pendq, err, pci, opx, iv, pv, dhead, 
+                              dtail, enc, bhead, own, qh, qi, regs, kk, num, 
+                              flag, stack >>
 
 gp_e(self) == /\ pc[self] = "gp_e"
               /\ gps[self] \cap OpenNow = {}
               /\ acc' = Ev(self, "gp_end", "-", "-", "-", "-")
               /\ pc' = [pc EXCEPT ![self] = Head(stack[self]).pc]
               /\ stack' = [stack EXCEPT ![self] = Tail(stack[self])]
-              /\ UNCHANGED << mem, sb, lock, fsleep, spur, registry, lfi, lfo, 
-                              lasthead, qalloc, tid, nrecl, started, cs, ncs, 
-                              pendq, err, pci, opx, iv, pv, dhead, dtail, enc, 
-                              bhead, own, qh, qi, regs, kk, num, flag, gps >>
+              /\ UNCHANGED << mem, sb, lock, fsleep, spur, fkind, registry, 
+                              lfi, lfo, lasthead, qalloc, tid, nrecl, started, 
+                              cs, ncs, pendq, err, pci, opx, iv, pv, dhead, 
+                              dtail, enc, bhead, own, qh, qi, regs, kk, num, 
+                              flag, gps >>
 
 synchronize_rcu(self) == gp_b(self) \/ gp_e(self)
 
@@ -454,10 +471,11 @@ wk_ld(self) == /\ pc[self] = "wk_ld"
                           /\ stack' = [stack EXCEPT ![self] = Tail(stack[self])]
                      ELSE /\ pc' = [pc EXCEPT ![self] = "wk_st"]
                           /\ stack' = stack
-               /\ UNCHANGED << mem, sb, lock, fsleep, spur, registry, lfi, lfo, 
-                               lasthead, qalloc, tid, nrecl, started, cs, ncs, 
-                               pendq, err, pci, opx, pv, dhead, dtail, enc, 
-                               bhead, own, qh, qi, regs, kk, num, flag, gps >>
+               /\ UNCHANGED << mem, sb, lock, fsleep, spur, fkind, registry, 
+                               lfi, lfo, lasthead, qalloc, tid, nrecl, started, 
+                               cs, ncs, pendq, err, pci, opx, pv, dhead, dtail, 
+                               enc, bhead, own, qh, qi, regs, kk, num, flag, 
+                               gps >>
 
 wk_st(self) == /\ pc[self] = "wk_st"
                /\ IF TSO
@@ -468,7 +486,7 @@ wk_st(self) == /\ pc[self] = "wk_st"
                           /\ sb' = sb
                /\ acc' = Ev(self, "st", "futex", 0, "-", "-")
                /\ pc' = [pc EXCEPT ![self] = "wk_fw"]
-               /\ UNCHANGED << lock, fsleep, spur, registry, lfi, lfo, 
+               /\ UNCHANGED << lock, fsleep, spur, fkind, registry, lfi, lfo, 
                                lasthead, qalloc, tid, nrecl, started, cs, ncs, 
                                pendq, err, pci, opx, iv, pv, dhead, dtail, enc, 
                                bhead, own, qh, qi, regs, kk, num, flag, gps, 
@@ -480,7 +498,7 @@ wk_fw(self) == /\ pc[self] = "wk_fw"
                /\ fsleep' = {}
                /\ pc' = [pc EXCEPT ![self] = Head(stack[self]).pc]
                /\ stack' = [stack EXCEPT ![self] = Tail(stack[self])]
-               /\ UNCHANGED << mem, sb, lock, spur, registry, lfi, lfo, 
+               /\ UNCHANGED << mem, sb, lock, spur, fkind, registry, lfi, lfo, 
                                lasthead, qalloc, tid, nrecl, started, cs, ncs, 
                                pendq, err, pci, opx, iv, pv, dhead, dtail, enc, 
                                bhead, own, qh, qi, regs, kk, num, flag, gps >>
@@ -490,21 +508,21 @@ wake_up_defer(self) == wk_ld(self) \/ wk_st(self) \/ wk_fw(self)
 q_top(self) == /\ pc[self] = "q_top"
                /\ qi' = [qi EXCEPT ![self] = Rd(self, TailOf(own[self]))]
                /\ pc' = [pc EXCEPT ![self] = "q_loop"]
-               /\ UNCHANGED << mem, sb, lock, acc, fsleep, spur, registry, lfi, 
-                               lfo, lasthead, qalloc, tid, nrecl, started, cs, 
-                               ncs, pendq, err, pci, opx, iv, pv, dhead, dtail, 
-                               enc, bhead, own, qh, regs, kk, num, flag, gps, 
-                               stack >>
+               /\ UNCHANGED << mem, sb, lock, acc, fsleep, spur, fkind, 
+                               registry, lfi, lfo, lasthead, qalloc, tid, 
+                               nrecl, started, cs, ncs, pendq, err, pci, opx, 
+                               iv, pv, dhead, dtail, enc, bhead, own, qh, regs, 
+                               kk, num, flag, gps, stack >>
 
 q_loop(self) == /\ pc[self] = "q_loop"
                 /\ IF qi[self] # qh[self]
                       THEN /\ pc' = [pc EXCEPT ![self] = "q_ld1"]
                       ELSE /\ pc' = [pc EXCEPT ![self] = "q_mb"]
-                /\ UNCHANGED << mem, sb, lock, acc, fsleep, spur, registry, 
-                                lfi, lfo, lasthead, qalloc, tid, nrecl, 
-                                started, cs, ncs, pendq, err, pci, opx, iv, pv, 
-                                dhead, dtail, enc, bhead, own, qh, qi, regs, 
-                                kk, num, flag, gps, stack >>
+                /\ UNCHANGED << mem, sb, lock, acc, fsleep, spur, fkind, 
+                                registry, lfi, lfo, lasthead, qalloc, tid, 
+                                nrecl, started, cs, ncs, pendq, err, pci, opx, 
+                                iv, pv, dhead, dtail, enc, bhead, own, qh, qi, 
+                                regs, kk, num, flag, gps, stack >>
 
 q_ld1(self) == /\ pc[self] = "q_ld1"
                /\ pv' = [pv EXCEPT ![self] = Rd(self, (Slot(own[self], qi[self] % Q)))]
@@ -517,20 +535,22 @@ q_ld1(self) == /\ pc[self] = "q_ld1"
                                 THEN /\ pc' = [pc EXCEPT ![self] = "q_ld3"]
                                 ELSE /\ pc' = [pc EXCEPT ![self] = "q_call"]
                           /\ lfo' = lfo
-               /\ UNCHANGED << mem, sb, lock, fsleep, spur, registry, lfi, 
-                               lasthead, qalloc, tid, nrecl, started, cs, ncs, 
-                               pendq, err, pci, opx, iv, dhead, dtail, enc, 
-                               bhead, own, qh, regs, kk, num, flag, gps, stack >>
+               /\ UNCHANGED << mem, sb, lock, fsleep, spur, fkind, registry, 
+                               lfi, lasthead, qalloc, tid, nrecl, started, cs, 
+                               ncs, pendq, err, pci, opx, iv, dhead, dtail, 
+                               enc, bhead, own, qh, regs, kk, num, flag, gps, 
+                               stack >>
 
 q_ld2(self) == /\ pc[self] = "q_ld2"
                /\ pv' = [pv EXCEPT ![self] = Rd(self, (Slot(own[self], qi[self] % Q)))]
                /\ acc' = Ev(self, "ld", (Slot(own[self], qi[self] % Q)), "-", "-", Rd(self, (Slot(own[self], qi[self] % Q))))
                /\ qi' = [qi EXCEPT ![self] = qi[self] + 1]
                /\ pc' = [pc EXCEPT ![self] = "q_call"]
-               /\ UNCHANGED << mem, sb, lock, fsleep, spur, registry, lfi, lfo, 
-                               lasthead, qalloc, tid, nrecl, started, cs, ncs, 
-                               pendq, err, pci, opx, iv, dhead, dtail, enc, 
-                               bhead, own, qh, regs, kk, num, flag, gps, stack >>
+               /\ UNCHANGED << mem, sb, lock, fsleep, spur, fkind, registry, 
+                               lfi, lfo, lasthead, qalloc, tid, nrecl, started, 
+                               cs, ncs, pendq, err, pci, opx, iv, dhead, dtail, 
+                               enc, bhead, own, qh, regs, kk, num, flag, gps, 
+                               stack >>
 
 q_ld3(self) == /\ pc[self] = "q_ld3"
                /\ pv' = [pv EXCEPT ![self] = Rd(self, (Slot(own[self], qi[self] % Q)))]
@@ -538,20 +558,22 @@ q_ld3(self) == /\ pc[self] = "q_ld3"
                /\ qi' = [qi EXCEPT ![self] = qi[self] + 1]
                /\ lfo' = [lfo EXCEPT ![own[self]] = pv'[self]]
                /\ pc' = [pc EXCEPT ![self] = "q_ld4"]
-               /\ UNCHANGED << mem, sb, lock, fsleep, spur, registry, lfi, 
-                               lasthead, qalloc, tid, nrecl, started, cs, ncs, 
-                               pendq, err, pci, opx, iv, dhead, dtail, enc, 
-                               bhead, own, qh, regs, kk, num, flag, gps, stack >>
+               /\ UNCHANGED << mem, sb, lock, fsleep, spur, fkind, registry, 
+                               lfi, lasthead, qalloc, tid, nrecl, started, cs, 
+                               ncs, pendq, err, pci, opx, iv, dhead, dtail, 
+                               enc, bhead, own, qh, regs, kk, num, flag, gps, 
+                               stack >>
 
 q_ld4(self) == /\ pc[self] = "q_ld4"
                /\ pv' = [pv EXCEPT ![self] = Rd(self, (Slot(own[self], qi[self] % Q)))]
                /\ acc' = Ev(self, "ld", (Slot(own[self], qi[self] % Q)), "-", "-", Rd(self, (Slot(own[self], qi[self] % Q))))
                /\ qi' = [qi EXCEPT ![self] = qi[self] + 1]
                /\ pc' = [pc EXCEPT ![self] = "q_call"]
-               /\ UNCHANGED << mem, sb, lock, fsleep, spur, registry, lfi, lfo, 
-                               lasthead, qalloc, tid, nrecl, started, cs, ncs, 
-                               pendq, err, pci, opx, iv, dhead, dtail, enc, 
-                               bhead, own, qh, regs, kk, num, flag, gps, stack >>
+               /\ UNCHANGED << mem, sb, lock, fsleep, spur, fkind, registry, 
+                               lfi, lfo, lasthead, qalloc, tid, nrecl, started, 
+                               cs, ncs, pendq, err, pci, opx, iv, dhead, dtail, 
+                               enc, bhead, own, qh, regs, kk, num, flag, gps, 
+                               stack >>
 
 q_call(self) == /\ pc[self] = "q_call"
                 /\ IF pendq[own[self]] = <<>>
@@ -575,21 +597,21 @@ q_call(self) == /\ pc[self] = "q_call"
                            /\ pendq' = [pendq EXCEPT ![own[self]] = Tail(pendq[own[self]])]
                 /\ acc' = Ev(self, "cb", "-", lfo[own[self]], pv[self], "-")
                 /\ pc' = [pc EXCEPT ![self] = "q_loop"]
-                /\ UNCHANGED << mem, sb, lock, fsleep, spur, registry, lfi, 
-                                lfo, lasthead, qalloc, tid, nrecl, started, cs, 
-                                ncs, pci, opx, iv, pv, dhead, dtail, enc, 
-                                bhead, own, qh, qi, regs, kk, num, flag, gps, 
-                                stack >>
+                /\ UNCHANGED << mem, sb, lock, fsleep, spur, fkind, registry, 
+                                lfi, lfo, lasthead, qalloc, tid, nrecl, 
+                                started, cs, ncs, pci, opx, iv, pv, dhead, 
+                                dtail, enc, bhead, own, qh, qi, regs, kk, num, 
+                                flag, gps, stack >>
 
 q_mb(self) == /\ pc[self] = "q_mb"
               /\ Drained(self)
               /\ acc' = Ev(self, "mb", "-", "-", "-", "-")
               /\ pc' = [pc EXCEPT ![self] = "q_st"]
-              /\ UNCHANGED << mem, sb, lock, fsleep, spur, registry, lfi, lfo, 
-                              lasthead, qalloc, tid, nrecl, started, cs, ncs, 
-                              pendq, err, pci, opx, iv, pv, dhead, dtail, enc, 
-                              bhead, own, qh, qi, regs, kk, num, flag, gps, 
-                              stack >>
+              /\ UNCHANGED << mem, sb, lock, fsleep, spur, fkind, registry, 
+                              lfi, lfo, lasthead, qalloc, tid, nrecl, started, 
+                              cs, ncs, pendq, err, pci, opx, iv, pv, dhead, 
+                              dtail, enc, bhead, own, qh, qi, regs, kk, num, 
+                              flag, gps, stack >>
 
 q_st(self) == /\ pc[self] = "q_st"
               /\ IF TSO
@@ -601,10 +623,10 @@ q_st(self) == /\ pc[self] = "q_st"
               /\ acc' = Ev(self, "st", (TailOf(own[self])), (qi[self]), "-", "-")
               /\ pc' = [pc EXCEPT ![self] = Head(stack[self]).pc]
               /\ stack' = [stack EXCEPT ![self] = Tail(stack[self])]
-              /\ UNCHANGED << lock, fsleep, spur, registry, lfi, lfo, lasthead, 
-                              qalloc, tid, nrecl, started, cs, ncs, pendq, err, 
-                              pci, opx, iv, pv, dhead, dtail, enc, bhead, own, 
-                              qh, qi, regs, kk, num, flag, gps >>
+              /\ UNCHANGED << lock, fsleep, spur, fkind, registry, lfi, lfo, 
+                              lasthead, qalloc, tid, nrecl, started, cs, ncs, 
+                              pendq, err, pci, opx, iv, pv, dhead, dtail, enc, 
+                              bhead, own, qh, qi, regs, kk, num, flag, gps >>
 
 barrier_queue(self) == q_top(self) \/ q_loop(self) \/ q_ld1(self)
                           \/ q_ld2(self) \/ q_ld3(self) \/ q_ld4(self)
@@ -617,22 +639,22 @@ btl_top(self) == /\ pc[self] = "btl_top"
                             /\ stack' = [stack EXCEPT ![self] = Tail(stack[self])]
                        ELSE /\ pc' = [pc EXCEPT ![self] = "btl_gp"]
                             /\ stack' = stack
-                 /\ UNCHANGED << mem, sb, lock, acc, fsleep, spur, registry, 
-                                 lfi, lfo, lasthead, qalloc, tid, nrecl, 
-                                 started, cs, ncs, pendq, err, pci, opx, iv, 
-                                 pv, dhead, dtail, enc, own, qh, qi, regs, kk, 
-                                 num, flag, gps >>
+                 /\ UNCHANGED << mem, sb, lock, acc, fsleep, spur, fkind, 
+                                 registry, lfi, lfo, lasthead, qalloc, tid, 
+                                 nrecl, started, cs, ncs, pendq, err, pci, opx, 
+                                 iv, pv, dhead, dtail, enc, own, qh, qi, regs, 
+                                 kk, num, flag, gps >>
 
 btl_gp(self) == /\ pc[self] = "btl_gp"
                 /\ stack' = [stack EXCEPT ![self] = << [ procedure |->  "synchronize_rcu",
                                                          pc        |->  "btl_q" ] >>
                                                      \o stack[self]]
                 /\ pc' = [pc EXCEPT ![self] = "gp_b"]
-                /\ UNCHANGED << mem, sb, lock, acc, fsleep, spur, registry, 
-                                lfi, lfo, lasthead, qalloc, tid, nrecl, 
-                                started, cs, ncs, pendq, err, pci, opx, iv, pv, 
-                                dhead, dtail, enc, bhead, own, qh, qi, regs, 
-                                kk, num, flag, gps >>
+                /\ UNCHANGED << mem, sb, lock, acc, fsleep, spur, fkind, 
+                                registry, lfi, lfo, lasthead, qalloc, tid, 
+                                nrecl, started, cs, ncs, pendq, err, pci, opx, 
+                                iv, pv, dhead, dtail, enc, bhead, own, qh, qi, 
+                                regs, kk, num, flag, gps >>
 
 btl_q(self) == /\ pc[self] = "btl_q"
                /\ own' = [own EXCEPT ![self] = self]
@@ -641,18 +663,19 @@ btl_q(self) == /\ pc[self] = "btl_q"
                                                         pc        |->  "btl_ret" ] >>
                                                     \o stack[self]]
                /\ pc' = [pc EXCEPT ![self] = "q_top"]
-               /\ UNCHANGED << mem, sb, lock, acc, fsleep, spur, registry, lfi, 
-                               lfo, lasthead, qalloc, tid, nrecl, started, cs, 
-                               ncs, pendq, err, pci, opx, iv, pv, dhead, dtail, 
-                               enc, bhead, qi, regs, kk, num, flag, gps >>
+               /\ UNCHANGED << mem, sb, lock, acc, fsleep, spur, fkind, 
+                               registry, lfi, lfo, lasthead, qalloc, tid, 
+                               nrecl, started, cs, ncs, pendq, err, pci, opx, 
+                               iv, pv, dhead, dtail, enc, bhead, qi, regs, kk, 
+                               num, flag, gps >>
 
 btl_ret(self) == /\ pc[self] = "btl_ret"
                  /\ pc' = [pc EXCEPT ![self] = Head(stack[self]).pc]
                  /\ stack' = [stack EXCEPT ![self] = Tail(stack[self])]
-                 /\ UNCHANGED << mem, sb, lock, acc, fsleep, spur, registry, 
-                                 lfi, lfo, lasthead, qalloc, tid, nrecl, 
-                                 started, cs, ncs, pendq, err, pci, opx, iv, 
-                                 pv, dhead, dtail, enc, bhead, own, qh, qi, 
+                 /\ UNCHANGED << mem, sb, lock, acc, fsleep, spur, fkind, 
+                                 registry, lfi, lfo, lasthead, qalloc, tid, 
+                                 nrecl, started, cs, ncs, pendq, err, pci, opx, 
+                                 iv, pv, dhead, dtail, enc, bhead, own, qh, qi, 
                                  regs, kk, num, flag, gps >>
 
 barrier_thread_locked(self) == btl_top(self) \/ btl_gp(self) \/ btl_q(self)
@@ -663,9 +686,9 @@ bt_lock(self) == /\ pc[self] = "bt_lock"
                  /\ lock' = [lock EXCEPT ![DM] = self]
                  /\ acc' = Ev(self, "lock", DM, "-", "-", "-")
                  /\ pc' = [pc EXCEPT ![self] = "bt_body"]
-                 /\ UNCHANGED << mem, sb, fsleep, spur, registry, lfi, lfo, 
-                                 lasthead, qalloc, tid, nrecl, started, cs, 
-                                 ncs, pendq, err, pci, opx, iv, pv, dhead, 
+                 /\ UNCHANGED << mem, sb, fsleep, spur, fkind, registry, lfi, 
+                                 lfo, lasthead, qalloc, tid, nrecl, started, 
+                                 cs, ncs, pendq, err, pci, opx, iv, pv, dhead, 
                                  dtail, enc, bhead, own, qh, qi, regs, kk, num, 
                                  flag, gps, stack >>
 
@@ -674,10 +697,10 @@ bt_body(self) == /\ pc[self] = "bt_body"
                                                           pc        |->  "bt_unl" ] >>
                                                       \o stack[self]]
                  /\ pc' = [pc EXCEPT ![self] = "btl_top"]
-                 /\ UNCHANGED << mem, sb, lock, acc, fsleep, spur, registry, 
-                                 lfi, lfo, lasthead, qalloc, tid, nrecl, 
-                                 started, cs, ncs, pendq, err, pci, opx, iv, 
-                                 pv, dhead, dtail, enc, bhead, own, qh, qi, 
+                 /\ UNCHANGED << mem, sb, lock, acc, fsleep, spur, fkind, 
+                                 registry, lfi, lfo, lasthead, qalloc, tid, 
+                                 nrecl, started, cs, ncs, pendq, err, pci, opx, 
+                                 iv, pv, dhead, dtail, enc, bhead, own, qh, qi, 
                                  regs, kk, num, flag, gps >>
 
 bt_unl(self) == /\ pc[self] = "bt_unl"
@@ -686,11 +709,11 @@ bt_unl(self) == /\ pc[self] = "bt_unl"
                 /\ acc' = Ev(self, "unlock", DM, "-", "-", "-")
                 /\ pc' = [pc EXCEPT ![self] = Head(stack[self]).pc]
                 /\ stack' = [stack EXCEPT ![self] = Tail(stack[self])]
-                /\ UNCHANGED << mem, sb, fsleep, spur, registry, lfi, lfo, 
-                                lasthead, qalloc, tid, nrecl, started, cs, ncs, 
-                                pendq, err, pci, opx, iv, pv, dhead, dtail, 
-                                enc, bhead, own, qh, qi, regs, kk, num, flag, 
-                                gps >>
+                /\ UNCHANGED << mem, sb, fsleep, spur, fkind, registry, lfi, 
+                                lfo, lasthead, qalloc, tid, nrecl, started, cs, 
+                                ncs, pendq, err, pci, opx, iv, pv, dhead, 
+                                dtail, enc, bhead, own, qh, qi, regs, kk, num, 
+                                flag, gps >>
 
 barrier_thread(self) == bt_lock(self) \/ bt_body(self) \/ bt_unl(self)
 
@@ -700,10 +723,10 @@ b_empty(self) == /\ pc[self] = "b_empty"
                             /\ stack' = [stack EXCEPT ![self] = Tail(stack[self])]
                        ELSE /\ pc' = [pc EXCEPT ![self] = "b_lock"]
                             /\ stack' = stack
-                 /\ UNCHANGED << mem, sb, lock, acc, fsleep, spur, registry, 
-                                 lfi, lfo, lasthead, qalloc, tid, nrecl, 
-                                 started, cs, ncs, pendq, err, pci, opx, iv, 
-                                 pv, dhead, dtail, enc, bhead, own, qh, qi, 
+                 /\ UNCHANGED << mem, sb, lock, acc, fsleep, spur, fkind, 
+                                 registry, lfi, lfo, lasthead, qalloc, tid, 
+                                 nrecl, started, cs, ncs, pendq, err, pci, opx, 
+                                 iv, pv, dhead, dtail, enc, bhead, own, qh, qi, 
                                  regs, kk, num, flag, gps >>
 
 b_lock(self) == /\ pc[self] = "b_lock"
@@ -714,10 +737,11 @@ b_lock(self) == /\ pc[self] = "b_lock"
                 /\ num' = [num EXCEPT ![self] = 0]
                 /\ kk' = [kk EXCEPT ![self] = 1]
                 /\ pc' = [pc EXCEPT ![self] = "b_scan"]
-                /\ UNCHANGED << mem, sb, fsleep, spur, registry, lfi, lfo, 
-                                lasthead, qalloc, tid, nrecl, started, cs, ncs, 
-                                pendq, err, pci, opx, iv, pv, dhead, dtail, 
-                                enc, bhead, own, qh, qi, flag, gps, stack >>
+                /\ UNCHANGED << mem, sb, fsleep, spur, fkind, registry, lfi, 
+                                lfo, lasthead, qalloc, tid, nrecl, started, cs, 
+                                ncs, pendq, err, pci, opx, iv, pv, dhead, 
+                                dtail, enc, bhead, own, qh, qi, flag, gps, 
+                                stack >>
 
 b_scan(self) == /\ pc[self] = "b_scan"
                 /\ IF kk[self] <= Len(regs[self])
@@ -729,8 +753,8 @@ b_scan(self) == /\ pc[self] = "b_scan"
                            /\ pc' = [pc EXCEPT ![self] = "b_scan"]
                       ELSE /\ pc' = [pc EXCEPT ![self] = "b_chk"]
                            /\ UNCHANGED << acc, lasthead, iv, kk, num >>
-                /\ UNCHANGED << mem, sb, lock, fsleep, spur, registry, lfi, 
-                                lfo, qalloc, tid, nrecl, started, cs, ncs, 
+                /\ UNCHANGED << mem, sb, lock, fsleep, spur, fkind, registry, 
+                                lfi, lfo, qalloc, tid, nrecl, started, cs, ncs, 
                                 pendq, err, pci, opx, pv, dhead, dtail, enc, 
                                 bhead, own, qh, qi, regs, flag, gps, stack >>
 
@@ -738,31 +762,31 @@ b_chk(self) == /\ pc[self] = "b_chk"
                /\ IF num[self] = 0
                      THEN /\ pc' = [pc EXCEPT ![self] = "b_unl"]
                      ELSE /\ pc' = [pc EXCEPT ![self] = "b_gp"]
-               /\ UNCHANGED << mem, sb, lock, acc, fsleep, spur, registry, lfi, 
-                               lfo, lasthead, qalloc, tid, nrecl, started, cs, 
-                               ncs, pendq, err, pci, opx, iv, pv, dhead, dtail, 
-                               enc, bhead, own, qh, qi, regs, kk, num, flag, 
-                               gps, stack >>
+               /\ UNCHANGED << mem, sb, lock, acc, fsleep, spur, fkind, 
+                               registry, lfi, lfo, lasthead, qalloc, tid, 
+                               nrecl, started, cs, ncs, pendq, err, pci, opx, 
+                               iv, pv, dhead, dtail, enc, bhead, own, qh, qi, 
+                               regs, kk, num, flag, gps, stack >>
 
 b_gp(self) == /\ pc[self] = "b_gp"
               /\ stack' = [stack EXCEPT ![self] = << [ procedure |->  "synchronize_rcu",
                                                        pc        |->  "b_q0" ] >>
                                                    \o stack[self]]
               /\ pc' = [pc EXCEPT ![self] = "gp_b"]
-              /\ UNCHANGED << mem, sb, lock, acc, fsleep, spur, registry, lfi, 
-                              lfo, lasthead, qalloc, tid, nrecl, started, cs, 
-                              ncs, pendq, err, pci, opx, iv, pv, dhead, dtail, 
-                              enc, bhead, own, qh, qi, regs, kk, num, flag, 
-                              gps >>
+              /\ UNCHANGED << mem, sb, lock, acc, fsleep, spur, fkind, 
+                              registry, lfi, lfo, lasthead, qalloc, tid, nrecl, 
+                              started, cs, ncs, pendq, err, pci, opx, iv, pv, 
+                              dhead, dtail, enc, bhead, own, qh, qi, regs, kk, 
+                              num, flag, gps >>
 
 b_q0(self) == /\ pc[self] = "b_q0"
               /\ kk' = [kk EXCEPT ![self] = 1]
               /\ pc' = [pc EXCEPT ![self] = "b_q"]
-              /\ UNCHANGED << mem, sb, lock, acc, fsleep, spur, registry, lfi, 
-                              lfo, lasthead, qalloc, tid, nrecl, started, cs, 
-                              ncs, pendq, err, pci, opx, iv, pv, dhead, dtail, 
-                              enc, bhead, own, qh, qi, regs, num, flag, gps, 
-                              stack >>
+              /\ UNCHANGED << mem, sb, lock, acc, fsleep, spur, fkind, 
+                              registry, lfi, lfo, lasthead, qalloc, tid, nrecl, 
+                              started, cs, ncs, pendq, err, pci, opx, iv, pv, 
+                              dhead, dtail, enc, bhead, own, qh, qi, regs, num, 
+                              flag, gps, stack >>
 
 b_q(self) == /\ pc[self] = "b_q"
              /\ IF kk[self] <= Len(regs[self])
@@ -775,10 +799,10 @@ b_q(self) == /\ pc[self] = "b_q"
                         /\ pc' = [pc EXCEPT ![self] = "q_top"]
                    ELSE /\ pc' = [pc EXCEPT ![self] = "b_unl"]
                         /\ UNCHANGED << own, qh, kk, stack >>
-             /\ UNCHANGED << mem, sb, lock, acc, fsleep, spur, registry, lfi, 
-                             lfo, lasthead, qalloc, tid, nrecl, started, cs, 
-                             ncs, pendq, err, pci, opx, iv, pv, dhead, dtail, 
-                             enc, bhead, qi, regs, num, flag, gps >>
+             /\ UNCHANGED << mem, sb, lock, acc, fsleep, spur, fkind, registry, 
+                             lfi, lfo, lasthead, qalloc, tid, nrecl, started, 
+                             cs, ncs, pendq, err, pci, opx, iv, pv, dhead, 
+                             dtail, enc, bhead, qi, regs, num, flag, gps >>
 
 b_unl(self) == /\ pc[self] = "b_unl"
                /\ Drained(self)
@@ -786,10 +810,11 @@ b_unl(self) == /\ pc[self] = "b_unl"
                /\ acc' = Ev(self, "unlock", DM, "-", "-", "-")
                /\ pc' = [pc EXCEPT ![self] = Head(stack[self]).pc]
                /\ stack' = [stack EXCEPT ![self] = Tail(stack[self])]
-               /\ UNCHANGED << mem, sb, fsleep, spur, registry, lfi, lfo, 
-                               lasthead, qalloc, tid, nrecl, started, cs, ncs, 
-                               pendq, err, pci, opx, iv, pv, dhead, dtail, enc, 
-                               bhead, own, qh, qi, regs, kk, num, flag, gps >>
+               /\ UNCHANGED << mem, sb, fsleep, spur, fkind, registry, lfi, 
+                               lfo, lasthead, qalloc, tid, nrecl, started, cs, 
+                               ncs, pendq, err, pci, opx, iv, pv, dhead, dtail, 
+                               enc, bhead, own, qh, qi, regs, kk, num, flag, 
+                               gps >>
 
 barrier(self) == b_empty(self) \/ b_lock(self) \/ b_scan(self)
                     \/ b_chk(self) \/ b_gp(self) \/ b_q0(self) \/ b_q(self)
@@ -802,10 +827,11 @@ e_ldt(self) == /\ pc[self] = "e_ldt"
                /\ IF dhead'[self] - dtail'[self] < Q - 2
                      THEN /\ pc' = [pc EXCEPT ![self] = "e_enc"]
                      ELSE /\ pc' = [pc EXCEPT ![self] = "e_full"]
-               /\ UNCHANGED << mem, sb, lock, fsleep, spur, registry, lfi, lfo, 
-                               lasthead, qalloc, tid, nrecl, started, cs, ncs, 
-                               pendq, err, pci, opx, iv, pv, enc, bhead, own, 
-                               qh, qi, regs, kk, num, flag, gps, stack >>
+               /\ UNCHANGED << mem, sb, lock, fsleep, spur, fkind, registry, 
+                               lfi, lfo, lasthead, qalloc, tid, nrecl, started, 
+                               cs, ncs, pendq, err, pci, opx, iv, pv, enc, 
+                               bhead, own, qh, qi, regs, kk, num, flag, gps, 
+                               stack >>
 
 e_full(self) == /\ pc[self] = "e_full"
                 /\ IF dhead[self] - dtail[self] > Q
@@ -819,11 +845,11 @@ e_full(self) == /\ pc[self] = "e_full"
                                                          pc        |->  "e_asrt" ] >>
                                                      \o stack[self]]
                 /\ pc' = [pc EXCEPT ![self] = "bt_lock"]
-                /\ UNCHANGED << mem, sb, lock, acc, fsleep, spur, registry, 
-                                lfi, lfo, lasthead, qalloc, tid, nrecl, 
-                                started, cs, ncs, pendq, pci, opx, iv, pv, 
-                                dhead, dtail, enc, bhead, own, qh, qi, regs, 
-                                kk, num, flag, gps >>
+                /\ UNCHANGED << mem, sb, lock, acc, fsleep, spur, fkind, 
+                                registry, lfi, lfo, lasthead, qalloc, tid, 
+                                nrecl, started, cs, ncs, pendq, pci, opx, iv, 
+                                pv, dhead, dtail, enc, bhead, own, qh, qi, 
+                                regs, kk, num, flag, gps >>
 
 e_asrt(self) == /\ pc[self] = "e_asrt"
                 /\ dtail' = [dtail EXCEPT ![self] = Rd(self, (TailOf(self)))]
@@ -836,21 +862,22 @@ e_asrt(self) == /\ pc[self] = "e_asrt"
                       ELSE /\ TRUE
                            /\ err' = err
                 /\ pc' = [pc EXCEPT ![self] = "e_enc"]
-                /\ UNCHANGED << mem, sb, lock, fsleep, spur, registry, lfi, 
-                                lfo, lasthead, qalloc, tid, nrecl, started, cs, 
-                                ncs, pendq, pci, opx, iv, pv, dhead, enc, 
-                                bhead, own, qh, qi, regs, kk, num, flag, gps, 
-                                stack >>
+                /\ UNCHANGED << mem, sb, lock, fsleep, spur, fkind, registry, 
+                                lfi, lfo, lasthead, qalloc, tid, nrecl, 
+                                started, cs, ncs, pendq, pci, opx, iv, pv, 
+                                dhead, enc, bhead, own, qh, qi, regs, kk, num, 
+                                flag, gps, stack >>
 
 e_enc(self) == /\ pc[self] = "e_enc"
                /\ enc' = [enc EXCEPT ![self] = Enc(lfi[self], opx[self].f, opx[self].p)]
                /\ lfi' = [lfi EXCEPT ![self] = opx[self].f]
                /\ kk' = [kk EXCEPT ![self] = 1]
                /\ pc' = [pc EXCEPT ![self] = "e_st"]
-               /\ UNCHANGED << mem, sb, lock, acc, fsleep, spur, registry, lfo, 
-                               lasthead, qalloc, tid, nrecl, started, cs, ncs, 
-                               pendq, err, pci, opx, iv, pv, dhead, dtail, 
-                               bhead, own, qh, qi, regs, num, flag, gps, stack >>
+               /\ UNCHANGED << mem, sb, lock, acc, fsleep, spur, fkind, 
+                               registry, lfo, lasthead, qalloc, tid, nrecl, 
+                               started, cs, ncs, pendq, err, pci, opx, iv, pv, 
+                               dhead, dtail, bhead, own, qh, qi, regs, num, 
+                               flag, gps, stack >>
 
 e_st(self) == /\ pc[self] = "e_st"
               /\ IF kk[self] <= Len(enc[self])
@@ -866,10 +893,10 @@ e_st(self) == /\ pc[self] = "e_st"
                          /\ pc' = [pc EXCEPT ![self] = "e_st"]
                     ELSE /\ pc' = [pc EXCEPT ![self] = "e_sth"]
                          /\ UNCHANGED << mem, sb, acc, dhead, kk >>
-              /\ UNCHANGED << lock, fsleep, spur, registry, lfi, lfo, lasthead, 
-                              qalloc, tid, nrecl, started, cs, ncs, pendq, err, 
-                              pci, opx, iv, pv, dtail, enc, bhead, own, qh, qi, 
-                              regs, num, flag, gps, stack >>
+              /\ UNCHANGED << lock, fsleep, spur, fkind, registry, lfi, lfo, 
+                              lasthead, qalloc, tid, nrecl, started, cs, ncs, 
+                              pendq, err, pci, opx, iv, pv, dtail, enc, bhead, 
+                              own, qh, qi, regs, num, flag, gps, stack >>
 
 e_sth(self) == /\ pc[self] = "e_sth"
                /\ IF TSO
@@ -880,7 +907,7 @@ e_sth(self) == /\ pc[self] = "e_sth"
                           /\ sb' = sb
                /\ acc' = Ev(self, "st", (HeadOf(self)), (dhead[self]), "-", "-")
                /\ pc' = [pc EXCEPT ![self] = "e_mb"]
-               /\ UNCHANGED << lock, fsleep, spur, registry, lfi, lfo, 
+               /\ UNCHANGED << lock, fsleep, spur, fkind, registry, lfi, lfo, 
                                lasthead, qalloc, tid, nrecl, started, cs, ncs, 
                                pendq, err, pci, opx, iv, pv, dhead, dtail, enc, 
                                bhead, own, qh, qi, regs, kk, num, flag, gps, 
@@ -890,31 +917,31 @@ e_mb(self) == /\ pc[self] = "e_mb"
               /\ Drained(self)
               /\ acc' = Ev(self, "mb", "-", "-", "-", "-")
               /\ pc' = [pc EXCEPT ![self] = "e_wake"]
-              /\ UNCHANGED << mem, sb, lock, fsleep, spur, registry, lfi, lfo, 
-                              lasthead, qalloc, tid, nrecl, started, cs, ncs, 
-                              pendq, err, pci, opx, iv, pv, dhead, dtail, enc, 
-                              bhead, own, qh, qi, regs, kk, num, flag, gps, 
-                              stack >>
+              /\ UNCHANGED << mem, sb, lock, fsleep, spur, fkind, registry, 
+                              lfi, lfo, lasthead, qalloc, tid, nrecl, started, 
+                              cs, ncs, pendq, err, pci, opx, iv, pv, dhead, 
+                              dtail, enc, bhead, own, qh, qi, regs, kk, num, 
+                              flag, gps, stack >>
 
 e_wake(self) == /\ pc[self] = "e_wake"
                 /\ stack' = [stack EXCEPT ![self] = << [ procedure |->  "wake_up_defer",
                                                          pc        |->  "e_ret" ] >>
                                                      \o stack[self]]
                 /\ pc' = [pc EXCEPT ![self] = "wk_ld"]
-                /\ UNCHANGED << mem, sb, lock, acc, fsleep, spur, registry, 
-                                lfi, lfo, lasthead, qalloc, tid, nrecl, 
-                                started, cs, ncs, pendq, err, pci, opx, iv, pv, 
-                                dhead, dtail, enc, bhead, own, qh, qi, regs, 
-                                kk, num, flag, gps >>
+                /\ UNCHANGED << mem, sb, lock, acc, fsleep, spur, fkind, 
+                                registry, lfi, lfo, lasthead, qalloc, tid, 
+                                nrecl, started, cs, ncs, pendq, err, pci, opx, 
+                                iv, pv, dhead, dtail, enc, bhead, own, qh, qi, 
+                                regs, kk, num, flag, gps >>
 
 e_ret(self) == /\ pc[self] = "e_ret"
                /\ pc' = [pc EXCEPT ![self] = Head(stack[self]).pc]
                /\ stack' = [stack EXCEPT ![self] = Tail(stack[self])]
-               /\ UNCHANGED << mem, sb, lock, acc, fsleep, spur, registry, lfi, 
-                               lfo, lasthead, qalloc, tid, nrecl, started, cs, 
-                               ncs, pendq, err, pci, opx, iv, pv, dhead, dtail, 
-                               enc, bhead, own, qh, qi, regs, kk, num, flag, 
-                               gps >>
+               /\ UNCHANGED << mem, sb, lock, acc, fsleep, spur, fkind, 
+                               registry, lfi, lfo, lasthead, qalloc, tid, 
+                               nrecl, started, cs, ncs, pendq, err, pci, opx, 
+                               iv, pv, dhead, dtail, enc, bhead, own, qh, qi, 
+                               regs, kk, num, flag, gps >>
 
 defer_rcu(self) == e_ldt(self) \/ e_full(self) \/ e_asrt(self)
                       \/ e_enc(self) \/ e_st(self) \/ e_sth(self)
@@ -930,53 +957,54 @@ r_chk(self) == /\ pc[self] = "r_chk"
                           /\ err' = err
                /\ qalloc' = [qalloc EXCEPT ![self] = TRUE]
                /\ pc' = [pc EXCEPT ![self] = "r_lk1"]
-               /\ UNCHANGED << mem, sb, lock, acc, fsleep, spur, registry, lfi, 
-                               lfo, lasthead, tid, nrecl, started, cs, ncs, 
-                               pendq, pci, opx, iv, pv, dhead, dtail, enc, 
-                               bhead, own, qh, qi, regs, kk, num, flag, gps, 
-                               stack >>
+               /\ UNCHANGED << mem, sb, lock, acc, fsleep, spur, fkind, 
+                               registry, lfi, lfo, lasthead, tid, nrecl, 
+                               started, cs, ncs, pendq, pci, opx, iv, pv, 
+                               dhead, dtail, enc, bhead, own, qh, qi, regs, kk, 
+                               num, flag, gps, stack >>
 
 r_lk1(self) == /\ pc[self] = "r_lk1"
                /\ Drained(self) /\ lock[TM] = "free"
                /\ lock' = [lock EXCEPT ![TM] = self]
                /\ acc' = Ev(self, "lock", TM, "-", "-", "-")
                /\ pc' = [pc EXCEPT ![self] = "r_lk2"]
-               /\ UNCHANGED << mem, sb, fsleep, spur, registry, lfi, lfo, 
-                               lasthead, qalloc, tid, nrecl, started, cs, ncs, 
-                               pendq, err, pci, opx, iv, pv, dhead, dtail, enc, 
-                               bhead, own, qh, qi, regs, kk, num, flag, gps, 
-                               stack >>
+               /\ UNCHANGED << mem, sb, fsleep, spur, fkind, registry, lfi, 
+                               lfo, lasthead, qalloc, tid, nrecl, started, cs, 
+                               ncs, pendq, err, pci, opx, iv, pv, dhead, dtail, 
+                               enc, bhead, own, qh, qi, regs, kk, num, flag, 
+                               gps, stack >>
 
 r_lk2(self) == /\ pc[self] = "r_lk2"
                /\ Drained(self) /\ lock[DM] = "free"
                /\ lock' = [lock EXCEPT ![DM] = self]
                /\ acc' = Ev(self, "lock", DM, "-", "-", "-")
                /\ pc' = [pc EXCEPT ![self] = "r_add"]
-               /\ UNCHANGED << mem, sb, fsleep, spur, registry, lfi, lfo, 
-                               lasthead, qalloc, tid, nrecl, started, cs, ncs, 
-                               pendq, err, pci, opx, iv, pv, dhead, dtail, enc, 
-                               bhead, own, qh, qi, regs, kk, num, flag, gps, 
-                               stack >>
+               /\ UNCHANGED << mem, sb, fsleep, spur, fkind, registry, lfi, 
+                               lfo, lasthead, qalloc, tid, nrecl, started, cs, 
+                               ncs, pendq, err, pci, opx, iv, pv, dhead, dtail, 
+                               enc, bhead, own, qh, qi, regs, kk, num, flag, 
+                               gps, stack >>
 
 r_add(self) == /\ pc[self] = "r_add"
                /\ flag' = [flag EXCEPT ![self] = (registry = <<>>)]
                /\ registry' = <<self>> \o registry
                /\ pc' = [pc EXCEPT ![self] = "r_ul2"]
-               /\ UNCHANGED << mem, sb, lock, acc, fsleep, spur, lfi, lfo, 
-                               lasthead, qalloc, tid, nrecl, started, cs, ncs, 
-                               pendq, err, pci, opx, iv, pv, dhead, dtail, enc, 
-                               bhead, own, qh, qi, regs, kk, num, gps, stack >>
+               /\ UNCHANGED << mem, sb, lock, acc, fsleep, spur, fkind, lfi, 
+                               lfo, lasthead, qalloc, tid, nrecl, started, cs, 
+                               ncs, pendq, err, pci, opx, iv, pv, dhead, dtail, 
+                               enc, bhead, own, qh, qi, regs, kk, num, gps, 
+                               stack >>
 
 r_ul2(self) == /\ pc[self] = "r_ul2"
                /\ Drained(self)
                /\ lock' = [lock EXCEPT ![DM] = "free"]
                /\ acc' = Ev(self, "unlock", DM, "-", "-", "-")
                /\ pc' = [pc EXCEPT ![self] = "r_start"]
-               /\ UNCHANGED << mem, sb, fsleep, spur, registry, lfi, lfo, 
-                               lasthead, qalloc, tid, nrecl, started, cs, ncs, 
-                               pendq, err, pci, opx, iv, pv, dhead, dtail, enc, 
-                               bhead, own, qh, qi, regs, kk, num, flag, gps, 
-                               stack >>
+               /\ UNCHANGED << mem, sb, fsleep, spur, fkind, registry, lfi, 
+                               lfo, lasthead, qalloc, tid, nrecl, started, cs, 
+                               ncs, pendq, err, pci, opx, iv, pv, dhead, dtail, 
+                               enc, bhead, own, qh, qi, regs, kk, num, flag, 
+                               gps, stack >>
 
 r_start(self) == /\ pc[self] = "r_start"
                  /\ IF flag[self]
@@ -995,10 +1023,10 @@ r_start(self) == /\ pc[self] = "r_start"
                        ELSE /\ TRUE
                             /\ UNCHANGED << acc, tid, nrecl, started, err >>
                  /\ pc' = [pc EXCEPT ![self] = "r_ul1"]
-                 /\ UNCHANGED << mem, sb, lock, fsleep, spur, registry, lfi, 
-                                 lfo, lasthead, qalloc, cs, ncs, pendq, pci, 
-                                 opx, iv, pv, dhead, dtail, enc, bhead, own, 
-                                 qh, qi, regs, kk, num, flag, gps, stack >>
+                 /\ UNCHANGED << mem, sb, lock, fsleep, spur, fkind, registry, 
+                                 lfi, lfo, lasthead, qalloc, cs, ncs, pendq, 
+                                 pci, opx, iv, pv, dhead, dtail, enc, bhead, 
+                                 own, qh, qi, regs, kk, num, flag, gps, stack >>
 
 r_ul1(self) == /\ pc[self] = "r_ul1"
                /\ Drained(self)
@@ -1006,10 +1034,11 @@ r_ul1(self) == /\ pc[self] = "r_ul1"
                /\ acc' = Ev(self, "unlock", TM, "-", "-", "-")
                /\ pc' = [pc EXCEPT ![self] = Head(stack[self]).pc]
                /\ stack' = [stack EXCEPT ![self] = Tail(stack[self])]
-               /\ UNCHANGED << mem, sb, fsleep, spur, registry, lfi, lfo, 
-                               lasthead, qalloc, tid, nrecl, started, cs, ncs, 
-                               pendq, err, pci, opx, iv, pv, dhead, dtail, enc, 
-                               bhead, own, qh, qi, regs, kk, num, flag, gps >>
+               /\ UNCHANGED << mem, sb, fsleep, spur, fkind, registry, lfi, 
+                               lfo, lasthead, qalloc, tid, nrecl, started, cs, 
+                               ncs, pendq, err, pci, opx, iv, pv, dhead, dtail, 
+                               enc, bhead, own, qh, qi, regs, kk, num, flag, 
+                               gps >>
 
 register(self) == r_chk(self) \/ r_lk1(self) \/ r_lk2(self) \/ r_add(self)
                      \/ r_ul2(self) \/ r_start(self) \/ r_ul1(self)
@@ -1019,22 +1048,22 @@ u_lk1(self) == /\ pc[self] = "u_lk1"
                /\ lock' = [lock EXCEPT ![TM] = self]
                /\ acc' = Ev(self, "lock", TM, "-", "-", "-")
                /\ pc' = [pc EXCEPT ![self] = "u_lk2"]
-               /\ UNCHANGED << mem, sb, fsleep, spur, registry, lfi, lfo, 
-                               lasthead, qalloc, tid, nrecl, started, cs, ncs, 
-                               pendq, err, pci, opx, iv, pv, dhead, dtail, enc, 
-                               bhead, own, qh, qi, regs, kk, num, flag, gps, 
-                               stack >>
+               /\ UNCHANGED << mem, sb, fsleep, spur, fkind, registry, lfi, 
+                               lfo, lasthead, qalloc, tid, nrecl, started, cs, 
+                               ncs, pendq, err, pci, opx, iv, pv, dhead, dtail, 
+                               enc, bhead, own, qh, qi, regs, kk, num, flag, 
+                               gps, stack >>
 
 u_lk2(self) == /\ pc[self] = "u_lk2"
                /\ Drained(self) /\ lock[DM] = "free"
                /\ lock' = [lock EXCEPT ![DM] = self]
                /\ acc' = Ev(self, "lock", DM, "-", "-", "-")
                /\ pc' = [pc EXCEPT ![self] = "u_del"]
-               /\ UNCHANGED << mem, sb, fsleep, spur, registry, lfi, lfo, 
-                               lasthead, qalloc, tid, nrecl, started, cs, ncs, 
-                               pendq, err, pci, opx, iv, pv, dhead, dtail, enc, 
-                               bhead, own, qh, qi, regs, kk, num, flag, gps, 
-                               stack >>
+               /\ UNCHANGED << mem, sb, fsleep, spur, fkind, registry, lfi, 
+                               lfo, lasthead, qalloc, tid, nrecl, started, cs, 
+                               ncs, pendq, err, pci, opx, iv, pv, dhead, dtail, 
+                               enc, bhead, own, qh, qi, regs, kk, num, flag, 
+                               gps, stack >>
 
 u_del(self) == /\ pc[self] = "u_del"
                /\ registry' = Without(registry, self)
@@ -1042,20 +1071,22 @@ u_del(self) == /\ pc[self] = "u_del"
                                                         pc        |->  "u_free" ] >>
                                                     \o stack[self]]
                /\ pc' = [pc EXCEPT ![self] = "btl_top"]
-               /\ UNCHANGED << mem, sb, lock, acc, fsleep, spur, lfi, lfo, 
-                               lasthead, qalloc, tid, nrecl, started, cs, ncs, 
-                               pendq, err, pci, opx, iv, pv, dhead, dtail, enc, 
-                               bhead, own, qh, qi, regs, kk, num, flag, gps >>
+               /\ UNCHANGED << mem, sb, lock, acc, fsleep, spur, fkind, lfi, 
+                               lfo, lasthead, qalloc, tid, nrecl, started, cs, 
+                               ncs, pendq, err, pci, opx, iv, pv, dhead, dtail, 
+                               enc, bhead, own, qh, qi, regs, kk, num, flag, 
+                               gps >>
 
 u_free(self) == /\ pc[self] = "u_free"
                 /\ qalloc' = [qalloc EXCEPT ![self] = FALSE]
                 /\ lasthead' = [lasthead EXCEPT ![self] = 0]
                 /\ flag' = [flag EXCEPT ![self] = (registry = <<>>)]
                 /\ pc' = [pc EXCEPT ![self] = "u_ul2"]
-                /\ UNCHANGED << mem, sb, lock, acc, fsleep, spur, registry, 
-                                lfi, lfo, tid, nrecl, started, cs, ncs, pendq, 
-                                err, pci, opx, iv, pv, dhead, dtail, enc, 
-                                bhead, own, qh, qi, regs, kk, num, gps, stack >>
+                /\ UNCHANGED << mem, sb, lock, acc, fsleep, spur, fkind, 
+                                registry, lfi, lfo, tid, nrecl, started, cs, 
+                                ncs, pendq, err, pci, opx, iv, pv, dhead, 
+                                dtail, enc, bhead, own, qh, qi, regs, kk, num, 
+                                gps, stack >>
 
 u_ul2(self) == /\ pc[self] = "u_ul2"
                /\ Drained(self)
@@ -1064,11 +1095,11 @@ u_ul2(self) == /\ pc[self] = "u_ul2"
                /\ IF ~flag[self]
                      THEN /\ pc' = [pc EXCEPT ![self] = "u_ul1"]
                      ELSE /\ pc' = [pc EXCEPT ![self] = "s_st1"]
-               /\ UNCHANGED << mem, sb, fsleep, spur, registry, lfi, lfo, 
-                               lasthead, qalloc, tid, nrecl, started, cs, ncs, 
-                               pendq, err, pci, opx, iv, pv, dhead, dtail, enc, 
-                               bhead, own, qh, qi, regs, kk, num, flag, gps, 
-                               stack >>
+               /\ UNCHANGED << mem, sb, fsleep, spur, fkind, registry, lfi, 
+                               lfo, lasthead, qalloc, tid, nrecl, started, cs, 
+                               ncs, pendq, err, pci, opx, iv, pv, dhead, dtail, 
+                               enc, bhead, own, qh, qi, regs, kk, num, flag, 
+                               gps, stack >>
 
 s_st1(self) == /\ pc[self] = "s_st1"
                /\ IF TSO
@@ -1079,7 +1110,7 @@ s_st1(self) == /\ pc[self] = "s_st1"
                           /\ sb' = sb
                /\ acc' = Ev(self, "st", "stop", 1, "-", "-")
                /\ pc' = [pc EXCEPT ![self] = "s_mb"]
-               /\ UNCHANGED << lock, fsleep, spur, registry, lfi, lfo, 
+               /\ UNCHANGED << lock, fsleep, spur, fkind, registry, lfi, lfo, 
                                lasthead, qalloc, tid, nrecl, started, cs, ncs, 
                                pendq, err, pci, opx, iv, pv, dhead, dtail, enc, 
                                bhead, own, qh, qi, regs, kk, num, flag, gps, 
@@ -1089,32 +1120,32 @@ s_mb(self) == /\ pc[self] = "s_mb"
               /\ Drained(self)
               /\ acc' = Ev(self, "mb", "-", "-", "-", "-")
               /\ pc' = [pc EXCEPT ![self] = "s_wake"]
-              /\ UNCHANGED << mem, sb, lock, fsleep, spur, registry, lfi, lfo, 
-                              lasthead, qalloc, tid, nrecl, started, cs, ncs, 
-                              pendq, err, pci, opx, iv, pv, dhead, dtail, enc, 
-                              bhead, own, qh, qi, regs, kk, num, flag, gps, 
-                              stack >>
+              /\ UNCHANGED << mem, sb, lock, fsleep, spur, fkind, registry, 
+                              lfi, lfo, lasthead, qalloc, tid, nrecl, started, 
+                              cs, ncs, pendq, err, pci, opx, iv, pv, dhead, 
+                              dtail, enc, bhead, own, qh, qi, regs, kk, num, 
+                              flag, gps, stack >>
 
 s_wake(self) == /\ pc[self] = "s_wake"
                 /\ stack' = [stack EXCEPT ![self] = << [ procedure |->  "wake_up_defer",
                                                          pc        |->  "s_join" ] >>
                                                      \o stack[self]]
                 /\ pc' = [pc EXCEPT ![self] = "wk_ld"]
-                /\ UNCHANGED << mem, sb, lock, acc, fsleep, spur, registry, 
-                                lfi, lfo, lasthead, qalloc, tid, nrecl, 
-                                started, cs, ncs, pendq, err, pci, opx, iv, pv, 
-                                dhead, dtail, enc, bhead, own, qh, qi, regs, 
-                                kk, num, flag, gps >>
+                /\ UNCHANGED << mem, sb, lock, acc, fsleep, spur, fkind, 
+                                registry, lfi, lfo, lasthead, qalloc, tid, 
+                                nrecl, started, cs, ncs, pendq, err, pci, opx, 
+                                iv, pv, dhead, dtail, enc, bhead, own, qh, qi, 
+                                regs, kk, num, flag, gps >>
 
 s_join(self) == /\ pc[self] = "s_join"
                 /\ pc[tid] = "Done"
                 /\ acc' = Ev(self, "join", tid, "-", "-", "-")
                 /\ pc' = [pc EXCEPT ![self] = "s_st0"]
-                /\ UNCHANGED << mem, sb, lock, fsleep, spur, registry, lfi, 
-                                lfo, lasthead, qalloc, tid, nrecl, started, cs, 
-                                ncs, pendq, err, pci, opx, iv, pv, dhead, 
-                                dtail, enc, bhead, own, qh, qi, regs, kk, num, 
-                                flag, gps, stack >>
+                /\ UNCHANGED << mem, sb, lock, fsleep, spur, fkind, registry, 
+                                lfi, lfo, lasthead, qalloc, tid, nrecl, 
+                                started, cs, ncs, pendq, err, pci, opx, iv, pv, 
+                                dhead, dtail, enc, bhead, own, qh, qi, regs, 
+                                kk, num, flag, gps, stack >>
 
 s_st0(self) == /\ pc[self] = "s_st0"
                /\ IF TSO
@@ -1125,7 +1156,7 @@ s_st0(self) == /\ pc[self] = "s_st0"
                           /\ sb' = sb
                /\ acc' = Ev(self, "st", "stop", 0, "-", "-")
                /\ pc' = [pc EXCEPT ![self] = "s_ld"]
-               /\ UNCHANGED << lock, fsleep, spur, registry, lfi, lfo, 
+               /\ UNCHANGED << lock, fsleep, spur, fkind, registry, lfi, lfo, 
                                lasthead, qalloc, tid, nrecl, started, cs, ncs, 
                                pendq, err, pci, opx, iv, pv, dhead, dtail, enc, 
                                bhead, own, qh, qi, regs, kk, num, flag, gps, 
@@ -1142,10 +1173,11 @@ s_ld(self) == /\ pc[self] = "s_ld"
                     ELSE /\ TRUE
                          /\ err' = err
               /\ pc' = [pc EXCEPT ![self] = "u_ul1"]
-              /\ UNCHANGED << mem, sb, lock, fsleep, spur, registry, lfi, lfo, 
-                              lasthead, qalloc, tid, nrecl, started, cs, ncs, 
-                              pendq, pci, opx, pv, dhead, dtail, enc, bhead, 
-                              own, qh, qi, regs, kk, num, flag, gps, stack >>
+              /\ UNCHANGED << mem, sb, lock, fsleep, spur, fkind, registry, 
+                              lfi, lfo, lasthead, qalloc, tid, nrecl, started, 
+                              cs, ncs, pendq, pci, opx, pv, dhead, dtail, enc, 
+                              bhead, own, qh, qi, regs, kk, num, flag, gps, 
+                              stack >>
 
 u_ul1(self) == /\ pc[self] = "u_ul1"
                /\ Drained(self)
@@ -1153,15 +1185,30 @@ u_ul1(self) == /\ pc[self] = "u_ul1"
                /\ acc' = Ev(self, "unlock", TM, "-", "-", "-")
                /\ pc' = [pc EXCEPT ![self] = Head(stack[self]).pc]
                /\ stack' = [stack EXCEPT ![self] = Tail(stack[self])]
-               /\ UNCHANGED << mem, sb, fsleep, spur, registry, lfi, lfo, 
-                               lasthead, qalloc, tid, nrecl, started, cs, ncs, 
-                               pendq, err, pci, opx, iv, pv, dhead, dtail, enc, 
-                               bhead, own, qh, qi, regs, kk, num, flag, gps >>
+               /\ UNCHANGED << mem, sb, fsleep, spur, fkind, registry, lfi, 
+                               lfo, lasthead, qalloc, tid, nrecl, started, cs, 
+                               ncs, pendq, err, pci, opx, iv, pv, dhead, dtail, 
+                               enc, bhead, own, qh, qi, regs, kk, num, flag, 
+                               gps >>
 
 unregister(self) == u_lk1(self) \/ u_lk2(self) \/ u_del(self)
                        \/ u_free(self) \/ u_ul2(self) \/ s_st1(self)
                        \/ s_mb(self) \/ s_wake(self) \/ s_join(self)
                        \/ s_st0(self) \/ s_ld(self) \/ u_ul1(self)
+
+fa(self) == /\ pc[self] = "fa"
+            /\ FaOf[self] \in fsleep /\ spur > 0
+            /\ spur' = spur - 1
+            /\ fsleep' = fsleep \ {FaOf[self]}
+            /\ \E k \in {"SPURIOUS", "EINTR"}:
+                 fkind' = [fkind EXCEPT ![FaOf[self]] = k]
+            /\ pc' = [pc EXCEPT ![self] = "fa"]
+            /\ UNCHANGED << mem, sb, lock, acc, registry, lfi, lfo, lasthead, 
+                            qalloc, tid, nrecl, started, cs, ncs, pendq, err, 
+                            pci, opx, iv, pv, dhead, dtail, enc, bhead, own, 
+                            qh, qi, regs, kk, num, flag, gps, stack >>
+
+faulter(self) == fa(self)
 
 fl(self) == /\ pc[self] = "fl"
             /\ sb[FlOf[self]] # <<>>
@@ -1170,50 +1217,51 @@ fl(self) == /\ pc[self] = "fl"
                /\ mem' = [mem EXCEPT ![Head(sb[FlOf[self]])[1]] = Head(sb[FlOf[self]])[2]]
                /\ sb' = [sb EXCEPT ![FlOf[self]] = Tail(sb[FlOf[self]])]
             /\ pc' = [pc EXCEPT ![self] = "fl"]
-            /\ UNCHANGED << lock, fsleep, spur, registry, lfi, lfo, lasthead, 
-                            qalloc, tid, nrecl, started, cs, ncs, pendq, err, 
-                            pci, opx, iv, pv, dhead, dtail, enc, bhead, own, 
-                            qh, qi, regs, kk, num, flag, gps, stack >>
+            /\ UNCHANGED << lock, fsleep, spur, fkind, registry, lfi, lfo, 
+                            lasthead, qalloc, tid, nrecl, started, cs, ncs, 
+                            pendq, err, pci, opx, iv, pv, dhead, dtail, enc, 
+                            bhead, own, qh, qi, regs, kk, num, flag, gps, 
+                            stack >>
 
 flusher(self) == fl(self)
 
 h_idle(self) == /\ pc[self] = "h_idle"
                 /\ started[self]
                 /\ pc' = [pc EXCEPT ![self] = "h_loop"]
-                /\ UNCHANGED << mem, sb, lock, acc, fsleep, spur, registry, 
-                                lfi, lfo, lasthead, qalloc, tid, nrecl, 
-                                started, cs, ncs, pendq, err, pci, opx, iv, pv, 
-                                dhead, dtail, enc, bhead, own, qh, qi, regs, 
-                                kk, num, flag, gps, stack >>
+                /\ UNCHANGED << mem, sb, lock, acc, fsleep, spur, fkind, 
+                                registry, lfi, lfo, lasthead, qalloc, tid, 
+                                nrecl, started, cs, ncs, pendq, err, pci, opx, 
+                                iv, pv, dhead, dtail, enc, bhead, own, qh, qi, 
+                                regs, kk, num, flag, gps, stack >>
 
 h_loop(self) == /\ pc[self] = "h_loop"
                 /\ pc' = [pc EXCEPT ![self] = "w_dec"]
-                /\ UNCHANGED << mem, sb, lock, acc, fsleep, spur, registry, 
-                                lfi, lfo, lasthead, qalloc, tid, nrecl, 
-                                started, cs, ncs, pendq, err, pci, opx, iv, pv, 
-                                dhead, dtail, enc, bhead, own, qh, qi, regs, 
-                                kk, num, flag, gps, stack >>
+                /\ UNCHANGED << mem, sb, lock, acc, fsleep, spur, fkind, 
+                                registry, lfi, lfo, lasthead, qalloc, tid, 
+                                nrecl, started, cs, ncs, pendq, err, pci, opx, 
+                                iv, pv, dhead, dtail, enc, bhead, own, qh, qi, 
+                                regs, kk, num, flag, gps, stack >>
 
 w_dec(self) == /\ pc[self] = "w_dec"
                /\ Drained(self)
                /\ mem' = [mem EXCEPT !["futex"] = mem["futex"] - 1]
                /\ acc' = Ev(self, "dec", "futex", "-", "-", mem'["futex"])
                /\ pc' = [pc EXCEPT ![self] = "w_mb"]
-               /\ UNCHANGED << sb, lock, fsleep, spur, registry, lfi, lfo, 
-                               lasthead, qalloc, tid, nrecl, started, cs, ncs, 
-                               pendq, err, pci, opx, iv, pv, dhead, dtail, enc, 
-                               bhead, own, qh, qi, regs, kk, num, flag, gps, 
-                               stack >>
+               /\ UNCHANGED << sb, lock, fsleep, spur, fkind, registry, lfi, 
+                               lfo, lasthead, qalloc, tid, nrecl, started, cs, 
+                               ncs, pendq, err, pci, opx, iv, pv, dhead, dtail, 
+                               enc, bhead, own, qh, qi, regs, kk, num, flag, 
+                               gps, stack >>
 
 w_mb(self) == /\ pc[self] = "w_mb"
               /\ Drained(self)
               /\ acc' = Ev(self, "mb", "-", "-", "-", "-")
               /\ pc' = [pc EXCEPT ![self] = "w_stop"]
-              /\ UNCHANGED << mem, sb, lock, fsleep, spur, registry, lfi, lfo, 
-                              lasthead, qalloc, tid, nrecl, started, cs, ncs, 
-                              pendq, err, pci, opx, iv, pv, dhead, dtail, enc, 
-                              bhead, own, qh, qi, regs, kk, num, flag, gps, 
-                              stack >>
+              /\ UNCHANGED << mem, sb, lock, fsleep, spur, fkind, registry, 
+                              lfi, lfo, lasthead, qalloc, tid, nrecl, started, 
+                              cs, ncs, pendq, err, pci, opx, iv, pv, dhead, 
+                              dtail, enc, bhead, own, qh, qi, regs, kk, num, 
+                              flag, gps, stack >>
 
 w_stop(self) == /\ pc[self] = "w_stop"
                 /\ iv' = [iv EXCEPT ![self] = Rd(self, "stop")]
@@ -1221,11 +1269,11 @@ w_stop(self) == /\ pc[self] = "w_stop"
                 /\ IF iv'[self] # 0
                       THEN /\ pc' = [pc EXCEPT ![self] = "w_exit"]
                       ELSE /\ pc' = [pc EXCEPT ![self] = "w_lock"]
-                /\ UNCHANGED << mem, sb, lock, fsleep, spur, registry, lfi, 
-                                lfo, lasthead, qalloc, tid, nrecl, started, cs, 
-                                ncs, pendq, err, pci, opx, pv, dhead, dtail, 
-                                enc, bhead, own, qh, qi, regs, kk, num, flag, 
-                                gps, stack >>
+                /\ UNCHANGED << mem, sb, lock, fsleep, spur, fkind, registry, 
+                                lfi, lfo, lasthead, qalloc, tid, nrecl, 
+                                started, cs, ncs, pendq, err, pci, opx, pv, 
+                                dhead, dtail, enc, bhead, own, qh, qi, regs, 
+                                kk, num, flag, gps, stack >>
 
 w_lock(self) == /\ pc[self] = "w_lock"
                 /\ Drained(self) /\ lock[DM] = "free"
@@ -1235,10 +1283,11 @@ w_lock(self) == /\ pc[self] = "w_lock"
                 /\ num' = [num EXCEPT ![self] = 0]
                 /\ kk' = [kk EXCEPT ![self] = 1]
                 /\ pc' = [pc EXCEPT ![self] = "w_scan"]
-                /\ UNCHANGED << mem, sb, fsleep, spur, registry, lfi, lfo, 
-                                lasthead, qalloc, tid, nrecl, started, cs, ncs, 
-                                pendq, err, pci, opx, iv, pv, dhead, dtail, 
-                                enc, bhead, own, qh, qi, flag, gps, stack >>
+                /\ UNCHANGED << mem, sb, fsleep, spur, fkind, registry, lfi, 
+                                lfo, lasthead, qalloc, tid, nrecl, started, cs, 
+                                ncs, pendq, err, pci, opx, iv, pv, dhead, 
+                                dtail, enc, bhead, own, qh, qi, flag, gps, 
+                                stack >>
 
 w_scan(self) == /\ pc[self] = "w_scan"
                 /\ IF kk[self] <= Len(regs[self])
@@ -1249,11 +1298,11 @@ w_scan(self) == /\ pc[self] = "w_scan"
                            /\ pc' = [pc EXCEPT ![self] = "w_scan"]
                       ELSE /\ pc' = [pc EXCEPT ![self] = "w_unl"]
                            /\ UNCHANGED << acc, iv, kk, num >>
-                /\ UNCHANGED << mem, sb, lock, fsleep, spur, registry, lfi, 
-                                lfo, lasthead, qalloc, tid, nrecl, started, cs, 
-                                ncs, pendq, err, pci, opx, pv, dhead, dtail, 
-                                enc, bhead, own, qh, qi, regs, flag, gps, 
-                                stack >>
+                /\ UNCHANGED << mem, sb, lock, fsleep, spur, fkind, registry, 
+                                lfi, lfo, lasthead, qalloc, tid, nrecl, 
+                                started, cs, ncs, pendq, err, pci, opx, pv, 
+                                dhead, dtail, enc, bhead, own, qh, qi, regs, 
+                                flag, gps, stack >>
 
 w_unl(self) == /\ pc[self] = "w_unl"
                /\ Drained(self)
@@ -1262,21 +1311,21 @@ w_unl(self) == /\ pc[self] = "w_unl"
                /\ IF num[self] = 0
                      THEN /\ pc' = [pc EXCEPT ![self] = "w_ldf"]
                      ELSE /\ pc' = [pc EXCEPT ![self] = "w_mb2"]
-               /\ UNCHANGED << mem, sb, fsleep, spur, registry, lfi, lfo, 
-                               lasthead, qalloc, tid, nrecl, started, cs, ncs, 
-                               pendq, err, pci, opx, iv, pv, dhead, dtail, enc, 
-                               bhead, own, qh, qi, regs, kk, num, flag, gps, 
-                               stack >>
+               /\ UNCHANGED << mem, sb, fsleep, spur, fkind, registry, lfi, 
+                               lfo, lasthead, qalloc, tid, nrecl, started, cs, 
+                               ncs, pendq, err, pci, opx, iv, pv, dhead, dtail, 
+                               enc, bhead, own, qh, qi, regs, kk, num, flag, 
+                               gps, stack >>
 
 w_mb2(self) == /\ pc[self] = "w_mb2"
                /\ Drained(self)
                /\ acc' = Ev(self, "mb", "-", "-", "-", "-")
                /\ pc' = [pc EXCEPT ![self] = "w_st"]
-               /\ UNCHANGED << mem, sb, lock, fsleep, spur, registry, lfi, lfo, 
-                               lasthead, qalloc, tid, nrecl, started, cs, ncs, 
-                               pendq, err, pci, opx, iv, pv, dhead, dtail, enc, 
-                               bhead, own, qh, qi, regs, kk, num, flag, gps, 
-                               stack >>
+               /\ UNCHANGED << mem, sb, lock, fsleep, spur, fkind, registry, 
+                               lfi, lfo, lasthead, qalloc, tid, nrecl, started, 
+                               cs, ncs, pendq, err, pci, opx, iv, pv, dhead, 
+                               dtail, enc, bhead, own, qh, qi, regs, kk, num, 
+                               flag, gps, stack >>
 
 w_st(self) == /\ pc[self] = "w_st"
               /\ IF TSO
@@ -1287,10 +1336,11 @@ w_st(self) == /\ pc[self] = "w_st"
                          /\ sb' = sb
               /\ acc' = Ev(self, "st", "futex", 0, "-", "-")
               /\ pc' = [pc EXCEPT ![self] = "h_bar"]
-              /\ UNCHANGED << lock, fsleep, spur, registry, lfi, lfo, lasthead, 
-                              qalloc, tid, nrecl, started, cs, ncs, pendq, err, 
-                              pci, opx, iv, pv, dhead, dtail, enc, bhead, own, 
-                              qh, qi, regs, kk, num, flag, gps, stack >>
+              /\ UNCHANGED << lock, fsleep, spur, fkind, registry, lfi, lfo, 
+                              lasthead, qalloc, tid, nrecl, started, cs, ncs, 
+                              pendq, err, pci, opx, iv, pv, dhead, dtail, enc, 
+                              bhead, own, qh, qi, regs, kk, num, flag, gps, 
+                              stack >>
 
 w_ldf(self) == /\ pc[self] = "w_ldf"
                /\ iv' = [iv EXCEPT ![self] = Rd(self, "futex")]
@@ -1298,11 +1348,11 @@ w_ldf(self) == /\ pc[self] = "w_ldf"
                /\ IF iv'[self] # -1
                      THEN /\ pc' = [pc EXCEPT ![self] = "h_bar"]
                      ELSE /\ pc' = [pc EXCEPT ![self] = "w_fwait"]
-               /\ UNCHANGED << mem, sb, lock, fsleep, spur, registry, lfi, lfo, 
-                               lasthead, qalloc, tid, nrecl, started, cs, ncs, 
-                               pendq, err, pci, opx, pv, dhead, dtail, enc, 
-                               bhead, own, qh, qi, regs, kk, num, flag, gps, 
-                               stack >>
+               /\ UNCHANGED << mem, sb, lock, fsleep, spur, fkind, registry, 
+                               lfi, lfo, lasthead, qalloc, tid, nrecl, started, 
+                               cs, ncs, pendq, err, pci, opx, pv, dhead, dtail, 
+                               enc, bhead, own, qh, qi, regs, kk, num, flag, 
+                               gps, stack >>
 
 w_fwait(self) == /\ pc[self] = "w_fwait"
                  /\ Drained(self)
@@ -1313,38 +1363,33 @@ w_fwait(self) == /\ pc[self] = "w_fwait"
                        ELSE /\ acc' = Ev(self, "fwait", "futex", -1, "-", "EAGAIN")
                             /\ pc' = [pc EXCEPT ![self] = "h_bar"]
                             /\ UNCHANGED fsleep
-                 /\ UNCHANGED << mem, sb, lock, spur, registry, lfi, lfo, 
-                                 lasthead, qalloc, tid, nrecl, started, cs, 
-                                 ncs, pendq, err, pci, opx, iv, pv, dhead, 
+                 /\ UNCHANGED << mem, sb, lock, spur, fkind, registry, lfi, 
+                                 lfo, lasthead, qalloc, tid, nrecl, started, 
+                                 cs, ncs, pendq, err, pci, opx, iv, pv, dhead, 
                                  dtail, enc, bhead, own, qh, qi, regs, kk, num, 
                                  flag, gps, stack >>
 
 w_fwoke(self) == /\ pc[self] = "w_fwoke"
-                 /\ \/ /\ self \notin fsleep
-                       /\ acc' = Ev(self, "fwoke", "futex", "-", "-", "WAKE")
-                       /\ UNCHANGED <<fsleep, spur>>
-                    \/ /\ self \in fsleep /\ spur > 0
-                       /\ spur' = spur - 1
-                       /\ fsleep' = fsleep \ {self}
-                       /\ \E k \in {"SPURIOUS", "EINTR"}:
-                            acc' = Ev(self, "fwoke", "futex", "-", "-", k)
+                 /\ self \notin fsleep
+                 /\ acc' = Ev(self, "fwoke", "futex", "-", "-", fkind[self])
+                 /\ fkind' = [fkind EXCEPT ![self] = "WAKE"]
                  /\ pc' = [pc EXCEPT ![self] = "w_ldf"]
-                 /\ UNCHANGED << mem, sb, lock, registry, lfi, lfo, lasthead, 
-                                 qalloc, tid, nrecl, started, cs, ncs, pendq, 
-                                 err, pci, opx, iv, pv, dhead, dtail, enc, 
-                                 bhead, own, qh, qi, regs, kk, num, flag, gps, 
-                                 stack >>
+                 /\ UNCHANGED << mem, sb, lock, fsleep, spur, registry, lfi, 
+                                 lfo, lasthead, qalloc, tid, nrecl, started, 
+                                 cs, ncs, pendq, err, pci, opx, iv, pv, dhead, 
+                                 dtail, enc, bhead, own, qh, qi, regs, kk, num, 
+                                 flag, gps, stack >>
 
 h_bar(self) == /\ pc[self] = "h_bar"
                /\ stack' = [stack EXCEPT ![self] = << [ procedure |->  "barrier",
                                                         pc        |->  "h_loop" ] >>
                                                     \o stack[self]]
                /\ pc' = [pc EXCEPT ![self] = "b_empty"]
-               /\ UNCHANGED << mem, sb, lock, acc, fsleep, spur, registry, lfi, 
-                               lfo, lasthead, qalloc, tid, nrecl, started, cs, 
-                               ncs, pendq, err, pci, opx, iv, pv, dhead, dtail, 
-                               enc, bhead, own, qh, qi, regs, kk, num, flag, 
-                               gps >>
+               /\ UNCHANGED << mem, sb, lock, acc, fsleep, spur, fkind, 
+                               registry, lfi, lfo, lasthead, qalloc, tid, 
+                               nrecl, started, cs, ncs, pendq, err, pci, opx, 
+                               iv, pv, dhead, dtail, enc, bhead, own, qh, qi, 
+                               regs, kk, num, flag, gps >>
 
 w_exit(self) == /\ pc[self] = "w_exit"
                 /\ IF TSO
@@ -1355,7 +1400,7 @@ w_exit(self) == /\ pc[self] = "w_exit"
                            /\ sb' = sb
                 /\ acc' = Ev(self, "st", "futex", 0, "-", "-")
                 /\ pc' = [pc EXCEPT ![self] = "h_exit"]
-                /\ UNCHANGED << lock, fsleep, spur, registry, lfi, lfo, 
+                /\ UNCHANGED << lock, fsleep, spur, fkind, registry, lfi, lfo, 
                                 lasthead, qalloc, tid, nrecl, started, cs, ncs, 
                                 pendq, err, pci, opx, iv, pv, dhead, dtail, 
                                 enc, bhead, own, qh, qi, regs, kk, num, flag, 
@@ -1365,11 +1410,11 @@ h_exit(self) == /\ pc[self] = "h_exit"
                 /\ Drained(self)
                 /\ acc' = Ev(self, "exit", "-", "-", "-", "-")
                 /\ pc' = [pc EXCEPT ![self] = "Done"]
-                /\ UNCHANGED << mem, sb, lock, fsleep, spur, registry, lfi, 
-                                lfo, lasthead, qalloc, tid, nrecl, started, cs, 
-                                ncs, pendq, err, pci, opx, iv, pv, dhead, 
-                                dtail, enc, bhead, own, qh, qi, regs, kk, num, 
-                                flag, gps, stack >>
+                /\ UNCHANGED << mem, sb, lock, fsleep, spur, fkind, registry, 
+                                lfi, lfo, lasthead, qalloc, tid, nrecl, 
+                                started, cs, ncs, pendq, err, pci, opx, iv, pv, 
+                                dhead, dtail, enc, bhead, own, qh, qi, regs, 
+                                kk, num, flag, gps, stack >>
 
 recl(self) == h_idle(self) \/ h_loop(self) \/ w_dec(self) \/ w_mb(self)
                  \/ w_stop(self) \/ w_lock(self) \/ w_scan(self)
@@ -1403,10 +1448,10 @@ t_top(self) == /\ pc[self] = "t_top"
                                      /\ ncs' = ncs
                      ELSE /\ pc' = [pc EXCEPT ![self] = "t_exit"]
                           /\ UNCHANGED << acc, cs, ncs, pendq, pci, opx >>
-               /\ UNCHANGED << mem, sb, lock, fsleep, spur, registry, lfi, lfo, 
-                               lasthead, qalloc, tid, nrecl, started, err, iv, 
-                               pv, dhead, dtail, enc, bhead, own, qh, qi, regs, 
-                               kk, num, flag, gps, stack >>
+               /\ UNCHANGED << mem, sb, lock, fsleep, spur, fkind, registry, 
+                               lfi, lfo, lasthead, qalloc, tid, nrecl, started, 
+                               err, iv, pv, dhead, dtail, enc, bhead, own, qh, 
+                               qi, regs, kk, num, flag, gps, stack >>
 
 t_disp(self) == /\ pc[self] = "t_disp"
                 /\ IF opx[self].op = "defer"
@@ -1437,11 +1482,11 @@ t_disp(self) == /\ pc[self] = "t_disp"
                                                                   ELSE /\ pendq[self] = <<>>
                                                                        /\ pc' = [pc EXCEPT ![self] = "t_ret"]
                                                                        /\ stack' = stack
-                /\ UNCHANGED << mem, sb, lock, acc, fsleep, spur, registry, 
-                                lfi, lfo, lasthead, qalloc, tid, nrecl, 
-                                started, cs, ncs, pendq, err, pci, opx, iv, pv, 
-                                dhead, dtail, enc, bhead, own, qh, qi, regs, 
-                                kk, num, flag, gps >>
+                /\ UNCHANGED << mem, sb, lock, acc, fsleep, spur, fkind, 
+                                registry, lfi, lfo, lasthead, qalloc, tid, 
+                                nrecl, started, cs, ncs, pendq, err, pci, opx, 
+                                iv, pv, dhead, dtail, enc, bhead, own, qh, qi, 
+                                regs, kk, num, flag, gps >>
 
 t_ret(self) == /\ pc[self] = "t_ret"
                /\ IF opx[self].op \in {"unreg", "barrier", "barrier_thread"} /\ pendq[self] # <<>>
@@ -1454,20 +1499,21 @@ t_ret(self) == /\ pc[self] = "t_ret"
                /\ acc' = Ev(self, "ret", "-", "-", "-", "-")
                /\ pci' = [pci EXCEPT ![self] = pci[self] + 1]
                /\ pc' = [pc EXCEPT ![self] = "t_top"]
-               /\ UNCHANGED << mem, sb, lock, fsleep, spur, registry, lfi, lfo, 
-                               lasthead, qalloc, tid, nrecl, started, cs, ncs, 
-                               pendq, opx, iv, pv, dhead, dtail, enc, bhead, 
-                               own, qh, qi, regs, kk, num, flag, gps, stack >>
+               /\ UNCHANGED << mem, sb, lock, fsleep, spur, fkind, registry, 
+                               lfi, lfo, lasthead, qalloc, tid, nrecl, started, 
+                               cs, ncs, pendq, opx, iv, pv, dhead, dtail, enc, 
+                               bhead, own, qh, qi, regs, kk, num, flag, gps, 
+                               stack >>
 
 t_exit(self) == /\ pc[self] = "t_exit"
                 /\ Drained(self)
                 /\ acc' = Ev(self, "exit", "-", "-", "-", "-")
                 /\ pc' = [pc EXCEPT ![self] = "Done"]
-                /\ UNCHANGED << mem, sb, lock, fsleep, spur, registry, lfi, 
-                                lfo, lasthead, qalloc, tid, nrecl, started, cs, 
-                                ncs, pendq, err, pci, opx, iv, pv, dhead, 
-                                dtail, enc, bhead, own, qh, qi, regs, kk, num, 
-                                flag, gps, stack >>
+                /\ UNCHANGED << mem, sb, lock, fsleep, spur, fkind, registry, 
+                                lfi, lfo, lasthead, qalloc, tid, nrecl, 
+                                started, cs, ncs, pendq, err, pci, opx, iv, pv, 
+                                dhead, dtail, enc, bhead, own, qh, qi, regs, 
+                                kk, num, flag, gps, stack >>
 
 thr(self) == t_top(self) \/ t_disp(self) \/ t_ret(self) \/ t_exit(self)
 
@@ -1477,6 +1523,7 @@ Next == (\E self \in ProcSet:  \/ synchronize_rcu(self)
                                \/ barrier_thread(self) \/ barrier(self)
                                \/ defer_rcu(self) \/ register(self)
                                \/ unregister(self))
+           \/ (\E self \in Faulters: faulter(self))
            \/ (\E self \in Flushers: flusher(self))
            \/ (\E self \in Recl: recl(self))
            \/ (\E self \in Threads: thr(self))
